@@ -807,6 +807,9 @@ def run(S):
     C18.rule_slice(S)
     from checks import C13
     C13.rule_stg(S, only=('yakushima::scan',))
+    # every returned key is the key of the entry visited (shared with C04)
+    from checks import C04
+    C04.rule_key(S)
     # mechanisms this property rests on (checks/shared.py)
     from checks import shared
     shared.key_order(S)
